@@ -36,6 +36,7 @@ import Ymq.Lemmas.PolyZMod
 import Ymq.Lemmas.PolyMiddle
 import Ymq.Lemmas.PolyTree
 import Ymq.Lemmas.PolyRootsEval
+import Ymq.Lemmas.PolyBarrett
 
 namespace Ymq.C10
 open Ymq.PolySpec
@@ -791,8 +792,7 @@ example : multiEval (Ctx.new 4) (natOps 101) [1, 2, 3] [0, 1, 2, 3, 4] = some [1
 /-- **`Poly::roots_eval(a, b)[j] = ∏_i (b_j - a_i)`, branch `|a| < n`** (`n = 2^bitlen(|b| - 1)`, the size
 of the tree over `b`; the ring context is the code's `PolyRing::new(zn, b.len())`): `from_roots(a)`,
 then `_multi_eval` on the tree of `b`, `truncate(b.len())`. No panic site is reached.
-The other branch (`|a| ≥ n`: products of chunks reduced modulo `∏(x - b_j)` with a precomputed
-reversed inverse) is modelled and K/O-compared, not proved. -/
+The other branch is `roots_eval_spec` below. -/
 theorem roots_eval_direct_spec {α R : Type} [CommRing R] [Nontrivial R] {o : Ops α} {φ : α → R}
     (h : HomE o φ) (a b : List α) (hb1 : 1 ≤ b.length) (ha1 : 1 ≤ a.length)
     (hb61 : Ymq.Checked.bitlen (b.length - 1) ≤ 61)
@@ -803,6 +803,41 @@ theorem roots_eval_direct_spec {α R : Type} [CommRing R] [Nontrivial R] {o : Op
   rootsEval_direct_spec h a b hb1 ha1 hb61 hab hinv
 
 example : rootsEval (natOps 101) [1, 2, 3] [0, 5, 7, 9] = some [95, 24, 19, 33] := by decide
+
+/-- **`Poly::roots_eval(a, b)[j] = ∏_i (b_j - a_i)`, both branches**, for `|a| ≥ 1`, `2 ≤ |b| ≤ 2^61`,
+over any coefficient operations whose `==` is equality of residues (`HomC`) and with `zn.inv(1)`
+succeeding; no panic site is reached. For `|a| ≥ n = 2^bitlen(|b| - 1)` the model follows the code:
+reversed top node of the tree over `b` with `revq[n]` left zero, `_inv_mod_xn` of it to `n + 1` terms,
+`assert!(revq[0] == 1)`, `a.chunks(n)`, `from_roots` of every chunk, `resize`/conditional subtraction of
+`Q`/`assert!`/`truncate`, and for every further chunk the three `_longmul`s (product, high half times
+reversed inverse, quotient slice `quo[n-1 .. 2n-2]` times `Q`), the `debug_assert!` that the high
+halves agree (PROVED to hold: `barrett_high`, the reversal argument), the subtraction of the low
+halves; finally `_multi_eval` on the tree and `truncate(b.len())`.
+Not covered: `|b| = 1` (`n = 1`; compared by K/O only). -/
+theorem roots_eval_spec {α R : Type} [CommRing R] [Nontrivial R] {o : Ops α} {φ : α → R}
+    (h : HomC o φ) (a b : List α) (ha1 : 1 ≤ a.length) (hb2 : 2 ≤ b.length)
+    (hb61 : Ymq.Checked.bitlen (b.length - 1) ≤ 61) (hinv : ∃ i, o.inv o.one = some i) :
+    ∃ vals, rootsEval o a b = some vals ∧ vals.length = b.length ∧
+      ∀ j, j < b.length →
+        φ (vals.getD j o.zero) = (a.map fun r => φ (b.getD j o.zero) - φ r).prod := by
+  rcases Nat.lt_or_ge a.length (2 ^ Ymq.Checked.bitlen (b.length - 1)) with hab | hab
+  · exact rootsEval_direct_spec h.toHomE a b (by omega) ha1 hb61 hab hinv
+  · exact rootsEval_long_spec h a b hb2 hb61 hab hinv
+
+/-- the same for what the driver runs: residues modulo `n > 1` -/
+theorem roots_eval_zmod (n : Nat) (hn : 1 < n) (a b : List Nat) (ha1 : 1 ≤ a.length) (hb2 : 2 ≤ b.length)
+    (hb61 : Ymq.Checked.bitlen (b.length - 1) ≤ 61) :
+    ∃ vals, rootsEval (natOps n) a b = some vals ∧ vals.length = b.length ∧
+      ∀ j, j < b.length →
+        ((vals.getD j 0 : ℕ) : ZMod n) = (a.map fun r => ((b.getD j 0 : ℕ) : ZMod n) - ((r : ℕ) : ZMod n)).prod := by
+  haveI : Fact (1 < n) := ⟨hn⟩
+  exact roots_eval_spec (natOps_homC n (by omega)) a b ha1 hb2 hb61
+    ⟨1, by
+      show Ymq.PolySpec.invMod (1 % n) n = some 1
+      rw [Nat.mod_eq_of_lt hn, invMod_one n hn, Nat.mod_eq_of_lt hn]⟩
+
+/-- the long branch on an instance: `|a| = 5 ≥ n = 2`, three chunks -/
+example : rootsEval (natOps 101) [1, 2, 3, 4, 5] [7, 9] = some [13, 54] := by decide
 
 end Trees
 
